@@ -22,7 +22,9 @@ Tree ==
               \cup (IF Ev.returned /\ Ev.survivorsIn # <<>>
                     THEN (IF Ev.startMode = "execute" /\ Ev.rootExits THEN {"in-group-descendant-survives-when-child-exited-before-cancellation"}
                           ELSE {"process-in-group-survives"}) ELSE {})
-              \cup (IF Ev.returned /\ Ev.isOn THEN {"ison-true-afterwards"} ELSE {}))                     \* ProcTree!IsOnFalseAfterwards
+              \cup (IF Ev.returned /\ Ev.isOn THEN {"ison-true-afterwards"} ELSE {})
+              \* "afterwards" begins when the call returns: asked by the caller at that very moment (Execute)
+              \cup (IF Ev.returned /\ Ev.startMode = "execute" /\ Ev.isOnAtReturn THEN {"ison-true-when-execute-returns"} ELSE {}))                     \* ProcTree!IsOnFalseAfterwards
     /\ l' = l + 1
 TraceSpec == l = 1 /\ [][Tree]_l
 TraceAccepted == LET n == TLCGet("stats").diameter - 1 IN PrintT(<<"TRACE_MATCHED", n>>) /\ n = Len(Trace)
